@@ -34,6 +34,30 @@ pub fn flags() -> Flags {
 
 pub fn gen(seed: u64, idx: u64, tier: Tier) -> Case {
     let mut rng = Rng::for_case(seed, "C06", idx);
+    if idx == 0 || (tier == Tier::Thorough && idx % 4000 == 1) {
+        // one handle writing, re-reading and patching a stream that outgrows the 109 header
+        // DIFAT slots in V3 (> 7.1 MB); run under a few configurations only
+        let mut c = Case::new("C06", "huge", 3);
+        c.params.insert("exact".into(), 1);
+        let len = 7_300_000 + rng.below(400_000) as usize;
+        c.ops.push(Op::WriteWhole { path: "/bystander".into(), len: 3000, nonce: 11 });
+        c.ops.push(Op::HCreate { h: 0, path: "/s".into() });
+        c.ops.push(Op::HWriteAll { h: 0, len, nonce: 21 });
+        c.ops.push(Op::HLen { h: 0 });
+        c.ops.push(Op::HSeek { h: 0, whence: crate::ops::Whence::Start, off: 0, uoff: 0 });
+        c.ops.push(Op::HReadFull { h: 0, n: len + 10 });
+        c.ops.push(Op::HSeek { h: 0, whence: crate::ops::Whence::Start, off: 0, uoff: 7_000_000 + rng.below(100_000) });
+        c.ops.push(Op::HWriteAll { h: 0, len: 70_000, nonce: 22 });
+        c.ops.push(Op::HSeek { h: 0, whence: crate::ops::Whence::Current, off: -100_000, uoff: 0 });
+        c.ops.push(Op::HReadFull { h: 0, n: 200_000 });
+        c.ops.push(Op::HSetLen { h: 0, n: 7_150_000 });
+        c.ops.push(Op::HPos { h: 0 });
+        c.ops.push(Op::HFlush { h: 0 });
+        c.ops.push(Op::HDrop { h: 0 });
+        c.ops.push(Op::ReadWhole("/s".into()));
+        c.ops.push(Op::ReadWhole("/bystander".into()));
+        return c;
+    }
     let mut c = Case::new("C06", "matrix", 3);
     let exact = rng.chance(1, 2);
     c.params.insert("exact".into(), exact as i64);
@@ -98,6 +122,8 @@ pub fn run(case: &Case, known: &BTreeSet<String>) -> Outcome {
     let single = case.param("single_config", 0) == 1;
     let configs: Vec<(u16, Option<usize>)> = if single {
         vec![(case.version, case.bufsize)]
+    } else if case.mode == "huge" {
+        vec![(3, None), (3, Some(65536)), (3, Some(5000)), (4, None)]
     } else {
         let mut v = vec![];
         for ver in [3u16, 4] {
